@@ -20,6 +20,7 @@ EXPLANATION = (
     "is non-empty and a subset of the live task hashes; subtree rows are written in one commit; C03.2 ULTIMATE results are "
     "obtained only through _get_call_node; get_call_cache is called only inside check_cache; C03.3 callers pass the live "
     "registry's task_hashes; C03.4 subtree sets are propagated on every arm of the resolve/reject finalisers and start as {task}."
+    " C03.1 also: a non-atomic writer adds every CallSubtreeTask row after its last intermediate commit point (a row made durable earlier would let a half-written node pass the reader's non-empty test)."
 )
 
 SCHED = "redun/scheduler.py"
